@@ -3,6 +3,7 @@ C15 - a multiscale step really processes num_scales scales, coarse to fine.   DE
 An ordering / exactly-once property over the executed-step history, which no product comparison sees.
 """
 import copy
+import hashlib
 import math
 import os
 import sys
@@ -184,6 +185,11 @@ class C15:
                 ms.pop("num_scales")
             if sf == 2:
                 ms.pop("scale_factor")
+        # the multiscale step under a suffixed name (decided from a hash of the program: the random stream is unchanged)
+        hh = hashlib.sha256(harness.jdump(prog).encode()).digest()
+        if hh[0] < 52:
+            sfx = ("ms", "coarse", "2", "multiscale", "a.b")[hh[1] % 5]
+            prog = [[(nme + "." + sfx) if programs.kind_of(nme) == "multiscale" else nme, p] for nme, p in prog]
         return {"harness": "pipeline", "world": w, "program": prog, "knobs": {"multiscale_chunk": rnd.choice([1, 3, 7, 100])}}
 
     def execute(self, sc):
